@@ -263,5 +263,6 @@ func init() {
 			run.Sample(map[string]any{"function": s.Func, "paths": r.Paths, "feasible": r.Feasible, "classes": r.ClassCount})
 		}
 		errRulesFor(run, p, "primitives/sr25519")
+		arithmeticFoundations(c)
 	}
 }
